@@ -176,6 +176,57 @@ pub fn run(ctx: &Ctx, rep: &mut Report) {
                 }
             }
         }
+        // ---- (3') perturbations of several response scalars at once. The factors must be bound to the responses as
+        // a whole, not to some function of them: (a) a sum-preserving shift of two d1 components of one proof changes
+        // every ratio that involves it; (b) the attacker shifts proof 0 by (+w1*t, -w1*t) and proof 1 by (-w0*t, +w0*t)
+        // on two coordinates, with the factors of the previous run - each proof invalid, the pair cancelling if the
+        // factors did not move
+        if ext >= 2 {
+            let (ca, cb) = (b % ext, (b + 1) % ext);
+            let x = rand_scalar(&mut rng);
+            let mut pr = proofs.clone();
+            pr[0] = bump_d1(&bump_d1(&proofs[0], ca, &x), cb, &-x);
+            if let Ok(Some(o)) = observe(&ts, &sts, &pr, action) {
+                for j in 1..k {
+                    rep.count("weight_ratios_compared", 1);
+                    if base.weights[0] * base.weights[j].invert() == o.weights[0] * o.weights[j].invert() {
+                        rep.violation(
+                            "C08 ratio-insensitive [d[] sum-preserving pair]",
+                            &format!("the ratio of the batch factors of proofs 0 and {j} did not change when d1[{ca}] and d1[{cb}] of proof 0 were shifted by +x and -x"),
+                            replay("sum-preserving d1 shift"),
+                        );
+                        break;
+                    }
+                }
+                if o.ok {
+                    rep.violation("C08 altered-response-accepted", "batch accepted after a sum-preserving shift of two d1 components of proof 0", replay("sum-preserving d1 shift"));
+                }
+            }
+            let mut last = base.weights.clone();
+            for round in 0..rounds.min(4) {
+                let t = rand_scalar(&mut rng);
+                let (w0, w1) = (last[0], last[1]);
+                let mut pr = proofs.clone();
+                pr[0] = bump_d1(&bump_d1(&proofs[0], ca, &(w1 * t)), cb, &-(w1 * t));
+                pr[1] = bump_d1(&bump_d1(&proofs[1], ca, &-(w0 * t)), cb, &(w0 * t));
+                rep.eval(&("attack-diagonal", b, round));
+                rep.count("attack_rounds_multi_coordinate", 1);
+                match observe(&ts, &sts, &pr, action) {
+                    Ok(Some(o)) => {
+                        if o.ok || o.residual.is_zero() {
+                            rep.violation(
+                                &format!("C08 cancellation-accepted multi-coordinate round{}", if round == 0 { "0" } else { ">0" }),
+                                &format!("two individually invalid proofs whose d1 components {ca} and {cb} were shifted in opposite directions, scaled by the other proof's factor of the previous run, were accepted (round {round})"),
+                                replay("multi-coordinate attack"),
+                            );
+                            break;
+                        }
+                        last = o.weights.clone();
+                    },
+                    _ => break,
+                }
+            }
+        }
         // ---- (4) the same attack on a batch in which each proof is submitted twice: the copies carry identical
         // defects (so they stay identical), and the attacker sums the factors of the copies observed on the previous run
         if b % 2 == 0 {
